@@ -1146,6 +1146,8 @@ func genValidate(emit func(string), tier string, rng *Rng) {
 	insideOnly = true
 	genValidateArith(emitSeq, thorough, rng)
 	insideOnly = false
+	// --- j. state a validator could keep stale: sequences with colliding native mappings, re-descriptions, Reset (fam_validate_state.go)
+	genValidateState(emitSeq, thorough, rng)
 }
 
 func genProtoValidate(emit func(string), tier string, rng *Rng) {
